@@ -23,7 +23,9 @@ def keccak_table(hb):
     return _table
 
 
-def analyze(ctx, hb, codes, cfg=DEFAULT_CFG, extra="all", name="analyze", timeout=1500):
+def analyze(ctx, hb, codes, cfg=DEFAULT_CFG, extra="all sorted", name="analyze", timeout=1500):
+    """`extra` = stage prefix + iteration-order mode; the forced `sorted` order keeps comparisons between separate runs free of
+    the (known, C02) dependence of layouts on hash iteration order"""
     lines = [gen.vm_line(c, cfg) + " " + extra for c in codes]
     ok, out, diag = vlib.run_harness_sharded(hb, ["analyze"], lines, timeout=timeout)
     ctx.oblige("harness:" + name, "search", ok, diag)
